@@ -73,9 +73,33 @@ fn main() {
         let vals: Vec<Val> = toks.iter().map(|t| Val::parse(t)).collect();
         #[cfg(num_bigint_verif)]
         let snap0 = num_bigint::verif_probe::snapshot();
+        // under the guard allocator the digit buffers of the operands are read-only for the duration of the
+        // command: every form only borrows or clones them, so a store into one (even if later undone) faults
+        #[cfg(all(feature = "guardalloc", num_bigint_verif))]
+        let prot: Vec<(*const u8, usize)> = if guard_alloc::active() {
+            vals.iter()
+                .filter_map(|v| match v {
+                    Val::U(x) => Some(num_bigint::verif_probe::raw_parts(x)),
+                    Val::I(x) => Some(num_bigint::verif_probe::raw_parts(x.magnitude())),
+                    Val::Other => None,
+                })
+                .filter(|(_, _, cap)| *cap > 0)
+                .map(|(p, _, cap)| (p, cap))
+                .collect()
+        } else {
+            vec![]
+        };
+        #[cfg(all(feature = "guardalloc", num_bigint_verif))]
+        for (p, n) in &prot {
+            guard_alloc::protect(*p, *n, true);
+        }
         let r = std::panic::catch_unwind(std::panic::AssertUnwindSafe(|| {
             dispatch(&toks, &vals, &mut out, &mut st)
         }));
+        #[cfg(all(feature = "guardalloc", num_bigint_verif))]
+        for (p, n) in &prot {
+            guard_alloc::protect(*p, *n, false);
+        }
         if r.is_err() {
             // a panic that escaped the per-call guards: harness-level, reported as such
             out.toks.clear();
